@@ -11,15 +11,22 @@ def close_enough(a, b, dtype):
     between batch sizes: a few ulps are accepted and counted"""
     if torch.equal(a, b):
         return True, True
-    tol = 1e-5 if dtype == torch.float32 else 1e-12
+    # float64: 1e-9 relative.  Iterated inverses (one pass per feature through matrix products whose BLAS blocking depends on the
+    # batch size) amplify last-bit differences by the conditioning of the map: 3e-11 was observed for three stacked conditional
+    # MAF parts; a value that really came from another row differs at the scale of the data
+    tol = 1e-5 if dtype == torch.float32 else 1e-9
     ok = bool(((a - b).abs() <= tol * (1 + a.abs())).all()) or bool((torch.isnan(a) & torch.isnan(b)).all())
     return ok, False
 
 
 def search(ck, tier, seed):
     exact = inexact = 0
-    for e in catalogue.entries(tier) + catalogue.boundary_entries():
-        t = attempt(catalogue.build, e, seed, torch.float64)
+    todo = [(e, False) for e in catalogue.entries(tier) + catalogue.boundary_entries()]
+    # splines once more with all parameters zero: uniform bins whose interior segments are exactly linear next to curved edge
+    # segments, so that one batch mixes the special-cased and the general branch of the inverses
+    todo += [(dict(e, name=e["name"] + " [flat parameters]"), True) for e in catalogue.entries(tier) if e["kinks"]]
+    for e, flat_params in todo:
+        t = attempt(catalogue.build, e, seed, torch.float64, False, flat_params)
         if t[0] != "ok":
             continue
         t = t[1]
